@@ -499,6 +499,19 @@ Fixpoint find_any (p : prog) (name m : string) : option (list string * list rs) 
   | (k, n, b) :: p' => if String.eqb (after_colon k) name && String.eqb n m then Some b else find_any p' name m
   end.
 
+Fixpoint has_prefix (pre k : string) : bool :=
+  match pre, k with
+  | EmptyString, _ => true
+  | String a pre', String b k' => neqb (Ascii.nat_of_ascii a) (Ascii.nat_of_ascii b) && has_prefix pre' k'
+  | _, _ => false
+  end.
+
+Fixpoint find_macro (p : prog) (pre m : string) : option (list string * list rs) :=
+  match p with
+  | [] => None
+  | (k, n, b) :: p' => if has_prefix pre k && String.eqb n m then Some b else find_macro p' pre m
+  end.
+
 (* the impl of method m for a struct: under its own name, or under the names the macros give it *)
 Definition find_impl (p : prog) (file name m : string) : option (list string * list rs) :=
   if String.eqb name "Option" then find_method p "observer.rs:$rc<Option>" m
@@ -509,7 +522,7 @@ Definition find_impl (p : prog) (file name m : string) : option (list string * l
       match find_method p (file ++ ":$rc<" ++ name ++ ">")%string m with
       | Some b => Some b
       | None =>
-          match find_method p (file ++ ":$name<O>")%string m with
+          match find_macro p (file ++ ":$")%string m with   (* an impl written for a macro parameter: $name<O>, $subscriber<O> *)
           | Some b => Some b
           | None => find_any p name m        (* a struct of another file (an observer wrapped by this one) *)
           end
